@@ -318,7 +318,7 @@ def to_signum(signum):
     except ValueError:
         pass
 
-    m = re.match(r'(\w+)(\+(\d+))?', signum)
+    m = re.match(r'(\w+)(\+(\d+))?\Z', signum)
     if m:
         name = m.group(1).upper()
         if not name.startswith('SIG'):
@@ -326,10 +326,11 @@ def to_signum(signum):
 
         offset = int(m.group(3)) if m.group(3) else 0
 
-        try:
-            return getattr(signal, name) + offset
-        except KeyError:
-            pass
+        # only real signals: the signal module also exports SIG_IGN,
+        # SIG_DFL, SIG_BLOCK... which are not
+        signum_ = getattr(signal, name, None)
+        if isinstance(signum_, signal.Signals):
+            return signum_ + offset
 
     raise ValueError('signal invalid: {}'.format(signum))
 
